@@ -29,7 +29,9 @@ def run(chk: core.Check):
         "atomicity assumption: each put/get/flag read between two hook points is one atomic step (CPython queue.Queue, threading.Event)",
         "forced-schedule controller harness/sched.py + guarded hooks in /repo (SCHEMATHESIS_VERIF=1); behaviour discovery (number of "
         "test-function entries per operation is measured on the real engine, Hypothesis decides it)",
-        "stateful and probing phases are covered by the plan-level theorem and by the stream oracle only, not by the LTS",
+        "stateful phase: consumer loop (ModelS_C11, forced schedules) and producer thread execute_state_machine_loop (ModelP_C11: the real loop is "
+        "driven by a scripted stand-in for Hypothesis' state-machine runner); what Hypothesis really does inside run() is an input of the model; "
+        "probing is covered by the plan-level theorem and by the stream oracle only",
     ]
     chk.assumptions = ["Hypothesis calls the test function a number of times that depends only on seed, strategy and outcomes (deterministic per operation)",
                        "KeyboardInterrupt raised in the test body propagates through Hypothesis unchanged"]
@@ -64,6 +66,11 @@ def run(chk: core.Check):
 
     # the stateful phase's consumer under forced schedules vs ModelS_C11 (one producer thread, its script measured on a free run)
     chk.stages["stateful_forced_schedules"] = stateful_stage(chk, (6 if quick else 60) * (3 if chk.broken else 1))
+
+    # the stateful phase's producer thread: the real execute_state_machine_loop under a scripted Hypothesis vs ModelP_C11
+    from harness.props import stateful_producer as SP
+
+    chk.stages["stateful_producer"] = SP.stage(chk, (150 if quick else 3000) * (3 if chk.broken else 1))
 
     # free multi-phase runs with a stop request at a random event index
     n_free = (8 if quick else 80) * (10 if chk.broken else 1)
